@@ -303,7 +303,10 @@ prop("C04",
 prop("C01",
      level="proof",
      level_text="Component contracts of the tree-construction algorithm, NOT the whole algorithm: (1) proved for a stack of "
-                "open elements of any depth: generateImpliedEndTags pops exactly the run of implied-end-tag elements (the "
+                "open elements of any depth and an arbitrary current node: the tree construction dispatcher in mainLoop hands every "
+                "token to the current insertion mode or to the foreign-content rules exactly as the standard prescribes (integration "
+                "points, mglyph/malignmark, annotation-xml + svg) through the method of its kind, once, and reports an "
+                "unacknowledged trailing solidus; generateImpliedEndTags pops exactly the run of implied-end-tag elements (the "
                 "standard's list) other than the excluded one, touches nothing else, terminates (measure: stack depth) and "
                 "does not recurse; (2) bounded stand-ins (not counted): elementInScope agrees with the standard's 'has an "
                 "element in the specific scope' for all five scopes on stacks of up to 4 elements of arbitrary names; "
